@@ -13,9 +13,14 @@ SEED = int(os.environ.get("VERIF_SEED", "0") or 0)
 CAPABILITY = {"E0599", "E0369", "E0608", "E0614", "E0596", "E0594", "E0277", "E0308", "E0382", "E0505", "E0507", "E0282", "E0283"}
 STALE = {"E0432", "E0433", "E0412", "E0425", "E0061", "E0603", "E0407", "E0437"}
 
+# name -> (type, constructor of a Locked RW region, data length N)
 CONTAINERS = {
-    "HeapBytes": ("HeapBytes", "HeapBytes::from_slice_into_locked(&[1u8; 32]).unwrap()"),
-    "HeapByteArray32": ("HeapByteArray<32>", "HeapByteArray::<32>::from_slice_into_locked(&[1u8; 32]).unwrap()"),
+    "HeapBytes": ("HeapBytes", "HeapBytes::from_slice_into_locked(&[1u8; 32]).unwrap()", 32),
+    "HeapByteArray32": ("HeapByteArray<32>", "HeapByteArray::<32>::from_slice_into_locked(&[1u8; 32]).unwrap()", 32),
+    # page-sized data: protection calls that round differently only disagree at exact page multiples
+    "HeapByteArray4096": ("HeapByteArray<4096>", "HeapByteArray::<4096>::from_slice_into_locked(&[1u8; 4096]).unwrap()", 4096),
+    # a page of data followed by a page of spare capacity inside the same allocation
+    "HeapBytesPagePlusSpare": ("HeapBytes", "{ let mut u = HeapBytes::from_slice_into_locked(&[1u8; 32]).unwrap().munlock().unwrap(); u.resize(8192, 1); u.resize(4096, 1); u.mlock().unwrap() }", 4096),
 }
 # how each type-state is reached by real transitions from a Locked RW region
 STATES = {
@@ -40,11 +45,11 @@ OPS = {
     "write:as_mut_slice":(f"p.as_mut_slice()[0] = 9;", True),
     "write:deref_mut":   (f"let s: &mut [u8] = &mut *p; s[0] = 9;", True),
     "write:as_mut":      (f"let s: &mut [u8] = p.as_mut(); s[0] = 9;", True),
-    "write:copy_from_slice": (f"p.copy_from_slice(&[2u8; 32]);", True),
+    "write:copy_from_slice": (f"p.copy_from_slice(&[2u8; NNN]);", True),
     "write:index":       (f"p[0] = 1;", True),
     "write:fill":        (f"p.fill(3);", True),
-    "array:as_array":    (f"let a: &[u8; 32] = p.as_array(); {BB}(a[31]);", False),
-    "array:as_mut_array":(f"let a: &mut [u8; 32] = p.as_mut_array(); a[31] = 1;", True),
+    "array:as_array":    (f"let a: &[u8; NNN] = p.as_array(); {BB}(a[31]);", False),
+    "array:as_mut_array":(f"let a: &mut [u8; NNN] = p.as_mut_array(); a[31] = 1;", True),
     # byte views offered through trait implementations rather than inherent methods
     "view:serde_json":   (f"let v = serde_json::to_vec(&p).unwrap(); {BB}(v);", False),
     "view:bincode":      (f"let v = bincode::serialize(&p).unwrap(); {BB}(v);", False),
@@ -52,7 +57,7 @@ OPS = {
     "view:eq":           (f"{BB}(p == p);", False),
     "view:to_vec":       (f"let v: Vec<u8> = p.to_vec(); {BB}(v);", False),
     "view:iter":         (f"let n: u32 = p.iter().map(|b| *b as u32).sum(); {BB}(n);", False),
-    "resize":            (f"p.resize(64, 0);", True),
+    "resize":            (f"p.resize(NNN + 32, 0);", True),
     "clone":             (f"let q = p.clone(); {BB}(&q);", False),
     "t:mlock":           (f"let q = p.mlock().unwrap(); {BB}(&q);", False),
     "t:munlock":         (f"let q = p.munlock().unwrap(); {BB}(&q);", False),
@@ -64,7 +69,7 @@ TRANSITIONS = ["munlock", "mprotect_readonly", "mprotect_readwrite", "mlock", "m
 
 def expectation(cont, state, op):
     """the permission model, from the property statement"""
-    fixed = cont != "HeapBytes"
+    fixed = cont.startswith("HeapByteArray")
     p, lk = pm(state), locked(state)
     if op.startswith("read:"):
         return "reject" if p == "NA" else "accept"
@@ -98,11 +103,12 @@ def expectation(cont, state, op):
 
 def programs():
     progs = []
-    for ck, (cty, ctor) in CONTAINERS.items():
+    for ck, (cty, ctor, nlen) in CONTAINERS.items():
         for sk, chain in STATES.items():
             for ok, (code, needs_mut) in OPS.items():
                 exp = expectation(ck, sk, ok)
                 if exp is None: continue
+                code = code.replace("NNN", str(nlen))
                 body = f"    let {'mut ' if needs_mut else ''}p = {ctor}{chain};\n    {code}\n"
                 progs.append(dict(id=f"{ck}__{sk}__{ok}".replace(":", "_"), cont=ck, state=sk, op=ok, expect=exp, body=body))
             # use after a consuming transition
@@ -277,7 +283,7 @@ def main():
               coverage=dict(states=states, transitions=len(progs), traces_validated_against_impl=len(rej) + len(uns) + len(acc) + len(runs),
                             samples=[dict(cell=p["id"], expect=p["expect"], program=p["body"]) for p in (rej[:1] + acc[:1] + rej[-1:])],
                             exhaustive=True, evaluations=len(progs), distinct_nontrivial=len(rej) + len(acc),
-                            rule="one generated program per cell of the permission table (2 containers x 5 type-states x 27 operations (incl. byte views through Serialize (JSON, bincode), Debug, PartialEq, to_vec and iter) + use-after/use-result for every consuming transition + 8 stream cells); must-reject cells: rustc must report >= 1 error of a capability class; must-accept cells: compile and run in a forked child with exit 0 and no signal; unspecified cells are recorded, and those the compiler accepts are also run (a signal is a violation, an Err-unwrap exit is not)",
+                            rule="one generated program per cell of the permission table (4 containers (32-byte resizable and fixed, a page-sized fixed array, a resizable region of one page of data plus one page of spare capacity) x 5 type-states x 27 operations (incl. byte views through Serialize (JSON, bincode), Debug, PartialEq, to_vec and iter) + use-after/use-result for every consuming transition + 8 stream cells); must-reject cells: rustc must report >= 1 error of a capability class; must-accept cells: compile and run in a forked child with exit 0 and no signal; unspecified cells are recorded, and those the compiler accepts are also run (a signal is a violation, an Err-unwrap exit is not)",
                             cells=dict(must_reject=len(rej), must_accept=len(acc), unspecified=len(uns)), programs_run=len(runs),
                             reject_error_classes=classes, unspecified_verdicts=unspecified_verdicts, known_findings_matched=list(known_hit)),
               assumptions=["rustc (nightly) is the oracle for compile-time rejection; error classes distinguish a missing capability from a stale template",
